@@ -422,12 +422,14 @@ def perturb(rng, tl, X):
         size = len(flat(getattr(tl, name)))
         v, _ = gen_value(rng, name, size, bad=0.0)
         if isinstance(v, list) and len(flat(v)) != size:
-            v = flat(v)[:1] * size if flat(v) else 0
-        try:
-            setattr(tl, name, copy.deepcopy(v))
-            hist.append(dict(op='set', name=name, value=v))
-        except Exception:
-            hist.append(dict(op='set-failed', name=name, value=v))
+            v = flat(v)[:1] * size if flat(v) else None
+        if v is not None or name in ('penalties', 'constraints'):
+            try:
+                setattr(tl, name, copy.deepcopy(v))
+                hist.append(dict(op='set', name=name, value=v))
+            except Exception:
+                # a rejected assignment leaves the terms partly modified (and possibly invalid); such states are not used here
+                return None
     if rng.random() < 0.2:
         try:
             tl.compile(X)
@@ -461,6 +463,10 @@ def info_cases(res, rng, count):
             if j not in factor_feats:
                 Xq[:, j] = X[:, j].min() + (X[:, j].max() - X[:, j].min()) * np.array([rng.random() for _ in range(6)])
         hist = perturb(rng, tl, Xa)
+        if hist is None:
+            res.count('info_perturbation_rejected')
+            tl = gen_terms.build_termlist(specs)
+            hist = []
         coef_seed = rng.randrange(1 << 30)
         # --- per term: Coq case + behaviour comparison
         for k, t in enumerate(tl._terms):
